@@ -7,7 +7,8 @@
    3. slot layer: check_for_existence = Fresh  ==>  the folded new name is not among the folded decoded long names
       (fresh_not_among_folded)
    4. whole images, fixed root: create keeps Wf.wf_issues = [] without a distinctness premise
-      (vol_create_keeps_wf_closed, vol_create_all_keeps_wf_closed), and rename (vol_rename_keeps_wf_closed) *)
+      (vol_create_keeps_wf_closed, vol_create_all_keeps_wf_closed), and rename (vol_rename_keeps_wf_closed: closed since the
+      scan added to rename_internal by 7e5011a, D27 - found by the proof attempt for this very theorem) *)
 From Coq Require Import NArith ZArith Lia List Bool Arith Permutation FMapPositive.
 From FatVerif Require Import Model.Base Model.Str Model.Slot Model.Time Model.Name Model.ShortName Model.DirSlots
   Spec.Image Spec.Abs Spec.WfFold Proofs.NameProofs Proofs.ShortNameProofs Proofs.DirSlotsProofs Model.VolDir
@@ -612,10 +613,9 @@ Definition src_not_dot (upper : N -> list N) (oem : N -> N) (im : image) (src : 
   forall ev, root_lookup upper oem im src = Ok ev ->
     list_eqb (Lfn.ev_raw_name ev) DOT || list_eqb (Lfn.ev_raw_name ev) DOTDOT = false.
 
-(* rename of a file inside the root of a well-formed FAT12/16 volume, EVERY outcome: the volume stays well formed.  The
-   folded new long name differs from all remaining long names because the library's existence check answered Fresh, or
-   resolved [dst] to the source itself and to no other entry ([dst_only_source]: needed, vol_rename_respell_dup_refuted). *)
-Theorem vol_rename_keeps_wf_closed fold upper oem im src dst r im' :
+(* rename of a file inside the root of a well-formed FAT12/16 volume, EVERY outcome, under the explicit premise that [dst]
+   resolves to no entry but the source: the volume stays well formed *)
+Theorem vol_rename_keeps_wf_gen fold upper oem im src dst r im' :
   fold_agrees upper fold ->
   fixed_root_geom (parse_geom im) -> Wf.wf_issues fold im = [] -> root_lfns_ok im ->
   Forall attrs_sane (root_region_slots (parse_geom im) im) -> Forall bytes_ok (root_region_slots (parse_geom im) im) ->
@@ -637,7 +637,7 @@ Proof.
   set (g := parse_geom im) in *.
   pose proof (Hnd ev F) as Hdot. rewrite <- Esfn in Hdot. fold (e_is_dot (node_entry n)) in Hdot.
   assert (e_is_dot (node_entry n') = false) as Hdot'.
-  { unfold e_is_dot. destruct Hsub as [(a & _ & -> & HL & _)|(dv & _ & _ & _ & ->)]; [|exact Hdot].
+  { unfold e_is_dot. destruct Hsub as [(a & _ & -> & HL & _)|(dv & _ & _ & _ & -> & _)]; [|exact Hdot].
     destruct (sfn_legal_not_dot a HL) as [-> ->]. reflexivity. }
   specialize (Hn Hdot). specialize (Hn' Hdot').
   rewrite (wf_issues_as_body fold im (fg_bits g Hg)) in Hwf. fold g in Hwf.
@@ -669,7 +669,7 @@ Proof.
   split.
   - rewrite Hn'. apply (wf_body_replace fold g im im' nx ny nc nd (node_entry n) (node_entry n') ch ct Rxy Esz Ecl Hlost).
     + rewrite <- Hn'. apply (names_issues_replace fold nx ny nc nd n n' Rxy Hnames); [|exact Hfresh].
-      destruct Hsub as [(a & _ & Ea & _ & Hna)|(dv & _ & _ & _ & Ee)]; [right|left; exact Ee].
+      destruct Hsub as [(a & _ & Ea & _ & Hna)|(dv & _ & _ & _ & Ee & _)]; [right|left; exact Ee].
       rewrite Ea. unfold node_sfns. rewrite <- R1. exact Hna.
     + rewrite <- Hn. exact Hwf.
   - unfold root_lfns_ok, root_lfns, lfns_ok in *. rewrite R2. rewrite R1 in Hok.
@@ -681,13 +681,62 @@ Proof.
     rewrite Elfn. destruct (is_dot_name dst); [reflexivity|apply utf16_okb_encode; exact Hv].
 Qed.
 
-(* ---- [dst_only_source] is necessary, and the situation is reachable through the library's own calls (reproduced on the
-   real library: finding "rename onto the source's alias while another entry's long name folds to it").
-   Case folding with one expansion, U+00DF -> "SS" (as char::to_uppercase).  On the example volume: create "ab"; create
-   "\u{DF}~1" (alias _~1~1); remove "ab"; create "s s" - first fit puts it IN FRONT of "\u{DF}~1", alias SS~1.  No issue.
-   rename "s s" -> "ss~1": check_for_existence stops at the first match, the source itself (through its ALIAS), so the
-   entry is rewritten under the long name "ss~1" (46d26a5) although "\u{DF}~1" behind it matches "ss~1" too (through its
-   LONG name): two long names with the folding "SS~1". *)
+(* ---- since 7e5011a (D27) the library establishes [dst_only_source] itself: a successful rename means the existence check
+   answered Fresh, or "the source itself" AND the scan of the whole directory ([other_match]) found no other match *)
+Lemma listed_same_end oem sv ss e1 e2 :
+  LfnSpec.listed_at oem sv [] ss e1 -> LfnSpec.listed_at oem sv [] ss e2 -> Lfn.ev_end e1 = Lfn.ev_end e2 -> e1 = e2.
+Proof.
+  intros (pre1 & bs1 & post1 & se1 & S1 & _ & D1 & _ & _ & ->) (pre2 & bs2 & post2 & se2 & S2 & _ & D2 & _ & _ & ->) HE.
+  unfold LfnSpec.entry_at, Lfn.mk_view in HE. cbn [Lfn.ev_end] in HE.
+  assert (length pre1 = length pre2) as HL.
+  { unfold len_N in HE. rewrite !app_nil_r, !rev_length, !map_length in HE. lia. }
+  assert (pre1 = pre2 /\ bs1 :: post1 = bs2 :: post2) as [-> E].
+  { rewrite S1 in S2. split.
+    - rewrite <- (firstn_app_exact pre1 (bs1 :: post1)), S2, HL. apply firstn_app_exact.
+    - rewrite <- (skipn_app_exact pre1 (bs1 :: post1)), S2, HL. apply skipn_app_exact. }
+  injection E as -> _. rewrite D1 in D2. injection D2 as ->. reflexivity.
+Qed.
+
+(* rename of a file inside the root of a well-formed FAT12/16 volume, EVERY outcome: the volume stays well formed - no
+   premise about the destination name.  The folded new long name differs from all remaining long names because the
+   library's existence check answered Fresh, or resolved [dst] to the source itself and the scan added by 7e5011a found
+   no other entry matching [dst]. *)
+Theorem vol_rename_keeps_wf_closed fold upper oem im src dst r im' :
+  fold_agrees upper fold ->
+  fixed_root_geom (parse_geom im) -> Wf.wf_issues fold im = [] -> root_lfns_ok im ->
+  Forall attrs_sane (root_region_slots (parse_geom im) im) -> Forall bytes_ok (root_region_slots (parse_geom im) im) ->
+  str_valid dst = true -> src_not_dot upper oem im src ->
+  vol_rename_in_root upper oem im src dst = Some (r, im') ->
+  Wf.wf_issues fold im' = [] /\ root_lfns_ok im'.
+Proof.
+  intros FA Hg Hwf Hok Hsane Hby Hv Hnd H.
+  assert (r = Ok tt \/ r <> Ok tt) as [->|Hr] by (destruct r as [[]| | |]; [left; reflexivity|right; discriminate..]).
+  2:{ destruct (vol_rename_failed_unchanged fold upper oem im src dst r im' Hg H Hr) as (_ & _ & Q2 & Q3 & _).
+      split; [rewrite Q3; exact Hwf|]. unfold root_lfns_ok, root_lfns. rewrite Q2. exact Hok. }
+  destruct (vol_rename_decodes upper oem im src dst im' Hg (wf_root_issues_nil fold im Hg Hwf) Hsane Hby H)
+    as (ev & F & _ & _ & Hcase).
+  destruct Hcase as [(dv & _ & _ & _ & Hsame & Habs)|
+                     (nx & n & ny & nc & nd & n' & ch & ct & _ & _ & _ & _ & _ & _ & _ & _ & _ & _ & _ & _ & _ & Hsub & _)].
+  { destruct (img_same_abs fold im im' Hg Hsame) as (_ & _ & Q3 & _).
+    split; [rewrite Q3; exact Hwf|]. unfold root_lfns_ok, root_lfns. rewrite Habs. exact Hok. }
+  apply (vol_rename_keeps_wf_gen fold upper oem im src dst (Ok tt) im' FA Hg Hwf Hok Hsane Hby Hv Hnd); [|exact H].
+  intros ev' l F' DE ev2 Hin M. assert (ev' = ev) as -> by congruence.
+  destruct Hsub as [(a & C & _)|(dv & _ & _ & _ & _ & Hom)].
+  - destruct (check_fresh_inv _ _ _ _ _ _ C) as (_ & _ & l' & DE' & Fn & _).
+    assert (l' = l) as -> by congruence. pose proof (find_none _ _ Fn ev2 Hin). congruence.
+  - destruct (N.eq_dec (Lfn.ev_end ev2) (Lfn.ev_end ev)) as [E|E]; [|rewrite (Hom l ev2 DE Hin E) in M; discriminate].
+    unfold root_lookup in F. destruct (find_entry_listed _ _ _ _ _ _ F) as [HL _].
+    apply (listed_same_end oem true (root_region_slots (parse_geom im) im)); [|exact HL|exact E].
+    unfold dir_entries in DE. apply (LfnProofs.read_dir_listed _ _ _ _ _ DE). exact Hin.
+Qed.
+
+(* ---- the situation that made the scan necessary (D27, found by the proof attempt for this theorem and reproduced on the
+   real library, fixed by 7e5011a).  Case folding with one expansion, U+00DF -> "SS" (as char::to_uppercase).  On the example
+   volume: create "ab"; create "\u{DF}~1" (alias _~1~1); remove "ab"; create "s s" - first fit puts it IN FRONT of
+   "\u{DF}~1", alias SS~1.  No issue.  rename "s s" -> "ss~1": check_for_existence stops at the first match, the source itself
+   (through its ALIAS); "\u{DF}~1" behind it matches "ss~1" too (through its LONG name).  Before the fix the source was
+   rewritten under the long name "ss~1": two long names with the folding "SS~1" (WDupLong).  Now: AlreadyExists, nothing
+   changes. *)
 Definition upper_sz (c : N) : list N := if c =? 223 then [83; 83] else [ascii_upper c].
 Definition ex_respell_im : image :=
   let U := upper_sz in let O := oem_decode_lossy in
@@ -704,47 +753,22 @@ Proof.
   unfold attrs_sane. apply Bool.eqb_prop. exact H.
 Qed.
 
-Theorem vol_rename_respell_dup_refuted :
-  exists im src dst im',
-    fixed_root_geom (parse_geom im) /\ Wf.wf_issues (wf_fold upper_sz) im = [] /\ root_lfns_ok im /\
-    Forall attrs_sane (root_region_slots (parse_geom im) im) /\ Forall bytes_ok (root_region_slots (parse_geom im) im) /\
-    str_valid dst = true /\ src_not_dot upper_sz oem_decode_lossy im src /\
-    root_lfns im = [[115; 32; 115]; [223; 126; 49]] /\
-    vol_rename_in_root upper_sz oem_decode_lossy im src dst = Some (Ok tt, im') /\
-    root_lfns im' = [[223; 126; 49]; [115; 115; 126; 49]] /\
-    Wf.wf_issues (wf_fold upper_sz) im' = [Wf.WDupLong 0] /\
-    ~ dst_only_source upper_sz oem_decode_lossy im src dst.
+(* the premises of the rename theorem hold on that volume *)
+Lemma ex_respell_premises :
+  fixed_root_geom (parse_geom ex_respell_im) /\ Wf.wf_issues (wf_fold upper_sz) ex_respell_im = [] /\
+  root_lfns_ok ex_respell_im /\
+  Forall attrs_sane (root_region_slots (parse_geom ex_respell_im) ex_respell_im) /\
+  Forall bytes_ok (root_region_slots (parse_geom ex_respell_im) ex_respell_im) /\
+  src_not_dot upper_sz oem_decode_lossy ex_respell_im [115; 32; 115] /\
+  root_lfns ex_respell_im = [[115; 32; 115]; [223; 126; 49]].
 Proof.
-  exists ex_respell_im, [115; 32; 115], [115; 115; 126; 49]. eexists.
   destruct ex_vol_premises as (bs & _ & _ & _ & Hg & _).
   assert (parse_geom ex_respell_im = parse_geom ex_vol_im) as Epg by (vm_compute; reflexivity).
-  assert (fixed_root_geom (parse_geom ex_respell_im)) as Hg' by (rewrite Epg; exact Hg).
-  assert (Wf.wf_issues (wf_fold upper_sz) ex_respell_im = []) as Hwf by (vm_compute; reflexivity).
-  assert (root_lfns_ok ex_respell_im) as Hok.
-  { assert (root_lfns ex_respell_im = [[115; 32; 115]; [223; 126; 49]]) as E by (vm_compute; reflexivity).
-    unfold root_lfns_ok, lfns_ok. rewrite E. repeat constructor. }
-  assert (Forall attrs_sane (root_region_slots (parse_geom ex_respell_im) ex_respell_im)) as Hs
-    by (apply attrs_sane_b; vm_compute; reflexivity).
-  assert (Forall bytes_ok (root_region_slots (parse_geom ex_respell_im) ex_respell_im)) as Hb
-    by (apply bytes_ok_b; vm_compute; reflexivity).
-  assert (src_not_dot upper_sz oem_decode_lossy ex_respell_im [115; 32; 115]) as Hnd.
-  { intros ev Hev. vm_compute in Hev. injection Hev as <-. vm_compute. reflexivity. }
-  assert (vol_rename_in_root upper_sz oem_decode_lossy ex_respell_im [115; 32; 115] [115; 115; 126; 49] =
-          Some (Ok tt, snd (vol_root_apply ex_respell_im
-                              (fun ss => rename_in_dir upper_sz oem_decode_lossy FixedRoot 0 ss [115; 32; 115] [115; 115; 126; 49]))))
-    as Hren by (vm_compute; reflexivity).
-  assert (Wf.wf_issues (wf_fold upper_sz)
-            (snd (vol_root_apply ex_respell_im
-                    (fun ss => rename_in_dir upper_sz oem_decode_lossy FixedRoot 0 ss [115; 32; 115] [115; 115; 126; 49])))
-          = [Wf.WDupLong 0]) as Hdup by (vm_compute; reflexivity).
-  split; [exact Hg'|]. split; [exact Hwf|]. split; [exact Hok|]. split; [exact Hs|]. split; [exact Hb|].
-  split; [reflexivity|]. split; [exact Hnd|]. split; [vm_compute; reflexivity|]. split; [exact Hren|].
-  split; [vm_compute; reflexivity|]. split; [exact Hdup|].
-  intros Honly.
-  destruct (vol_rename_keeps_wf_closed (wf_fold upper_sz) upper_sz oem_decode_lossy ex_respell_im
-              [115; 32; 115] [115; 115; 126; 49] _ _
-              (wf_fold_agrees upper_sz) Hg' Hwf Hok Hs Hb eq_refl Hnd Honly Hren) as [C _].
-  rewrite Hdup in C. discriminate.
+  assert (root_lfns ex_respell_im = [[115; 32; 115]; [223; 126; 49]]) as E by (vm_compute; reflexivity).
+  split; [rewrite Epg; exact Hg|]. split; [vm_compute; reflexivity|].
+  split; [unfold root_lfns_ok, lfns_ok; rewrite E; repeat constructor|].
+  split; [apply attrs_sane_b; vm_compute; reflexivity|]. split; [apply bytes_ok_b; vm_compute; reflexivity|].
+  split; [|exact E]. intros ev Hev. vm_compute in Hev. injection Hev as <-. vm_compute. reflexivity.
 Qed.
 
 (* ================================================================ 6. the statements used by Props/C03.v *)
@@ -772,16 +796,7 @@ Proof. exact (vol_create_keeps_wf_closed (wf_fold upper) upper oem im name now r
 Theorem vol_rename_keeps_wf_judge upper oem im src dst r im' :
   fixed_root_geom (parse_geom im) -> Wf.wf_issues (wf_fold upper) im = [] -> root_lfns_ok im ->
   Forall attrs_sane (root_region_slots (parse_geom im) im) -> Forall bytes_ok (root_region_slots (parse_geom im) im) ->
-  str_valid dst = true -> src_not_dot upper oem im src -> dst_only_source upper oem im src dst ->
+  str_valid dst = true -> src_not_dot upper oem im src ->
   vol_rename_in_root upper oem im src dst = Some (r, im') ->
   Wf.wf_issues (wf_fold upper) im' = [] /\ root_lfns_ok im'.
 Proof. exact (vol_rename_keeps_wf_closed (wf_fold upper) upper oem im src dst r im' (wf_fold_agrees upper)). Qed.
-
-(* [dst_only_source] holds whenever the library's existence check finds no entry for [dst] *)
-Lemma dst_only_source_fresh upper oem im src dst a :
-  check_for_existence upper oem (root_region_slots (parse_geom im) im) dst None = Ok (Fresh a) ->
-  dst_only_source upper oem im src dst.
-Proof.
-  intros C ev l _ DE ev2 Hin M. destruct (check_fresh_inv _ _ _ _ _ _ C) as (_ & _ & l' & DE' & F & _).
-  assert (l' = l) as -> by congruence. pose proof (find_none _ _ F ev2 Hin). congruence.
-Qed.
